@@ -34,8 +34,8 @@ structure ConsDef where
   deriving DecidableEq, Repr, Inhabited
 
 /-- `from_constraint(to_constraint(c))`: `if constraint.deferrable:` / `if constraint.initially:`
-keep only truthy values (unique and foreign key constraints; check and primary key ops do not
-carry them at all) -/
+keep only truthy values (unique and foreign key constraints); `CreateCheckConstraintOp` /
+`CreatePrimaryKeyOp.from_constraint` do not read them at all -/
 def ConsDef.roundTrip (c : ConsDef) : ConsDef :=
   match c.kind with
   | .unique | .foreignKey =>
@@ -44,7 +44,7 @@ def ConsDef.roundTrip (c : ConsDef) : ConsDef :=
       initially := match c.initially with
         | some "" => none
         | x => x }
-  | _ => c
+  | _ => { c with deferrable := none, initially := none }
 
 structure IndexDef where
   name : Option String
